@@ -105,6 +105,45 @@ def gen_boundary(rng, n, faults):
     return out
 
 
+def gen_large(rng, n, faults):
+    """capacities around and above 8192 (std's default BufWriter size, which a constructor slip would substitute for the
+    configured capacity): unflushed data crossing byte 8192 exactly at the end of a metric's text, single metrics of
+    8192.. bytes that still fit, random long histories"""
+    out = []
+    caps = [8190, 8191, 8192, 8193, 8200, 9000, 16384, 65536]
+    for cap in caps:
+        for e in ("0a", "0d0a", "-"):
+            el = len(unhex(e))
+            # seven lines of 1024 bytes in total each, then a metric whose text ends exactly at byte 8192 of the unflushed data
+            ops = [("E", metric(j, 1024 - el)) for j in range(7)]
+            ops += [("E", metric(7, 1024)), ("E", metric(8, 5)), ("E", metric(9, 700)), ("F",), ("E", metric(10, 3))]
+            out.append(mk_case(cap, e, ops, []))
+            for ln in (8191, 8192, 8193, 9000, cap - el, cap - el - 1, cap - el + 1):
+                if ln >= 0:
+                    out.append(mk_case(cap, e, [("E", metric(0, 10)), ("E", metric(1, ln)), ("E", metric(2, 10)), ("F",),
+                                                ("E", metric(3, ln)), ("E", metric(4, 1))], []))
+    for _ in range(n):
+        cap = rng.choice(caps + [10000, 12288, 20000, 32768])
+        e = rng.choice(["0a", "0a", "0d0a", "-"])
+        el = len(unhex(e))
+        ops = []
+        tot = 0
+        for j in range(rng.randint(5, 40)):
+            if rng.random() < 0.05:
+                ops.append(("F",))
+                tot = 0
+                continue
+            room = 8192 - tot
+            ln = rng.choice([rng.randint(0, 3000), rng.randint(0, 300), max(0, room), max(0, room - el), max(0, room - 1), 1024 - el])
+            ops.append(("E", metric(j, ln)))
+            tot += ln + el
+        sc = []
+        if faults and rng.random() < 0.5:
+            sc = [rng.choice(["o", "o", "e%d" % (k + 1), "i"]) for k in range(rng.randint(1, 5))]
+        out.append(mk_case(cap, e, ops, sc))
+    return out
+
+
 def gen_random(rng, n, faults, maxops=200):
     out = []
     for _ in range(n):
@@ -344,12 +383,15 @@ def clause_conserve(a, faults):
 
 
 def clause_greedy(a):
-    """C19 (fault-free histories): writes happen only when they must, datagrams are maximal,
-    and their number is the optimum of in-order packing"""
+    """C19: an emit writes to the socket only when it must (buffered + new bytes >= capacity), every datagram it
+    flushes could not have taken the new metric - both also under faults, where a failed attempt leaves the data
+    buffered - and, for fault-free segments between flushes, the number of datagrams is the optimum of in-order packing"""
     cap, el = a["cap"], len(a["ending"])
     pending = 0
     n_datagrams_segment = 0
     sizes_segment = []
+    faulty_segment = False
+    results = a["results"]
 
     def greedy_count(sizes):
         n, cur = 0, None
@@ -363,6 +405,9 @@ def clause_greedy(a):
 
     for j, op in enumerate(a["ops"] + [("D",)]):
         atts = [at for at in a["atts"] if at["op"] == j]
+        acked = j < len(results) and results[j].startswith("k")
+        if any(at["out"] != "o" for at in atts) or (op[0] != "D" and j < len(results) and not acked):
+            faulty_segment = True
         if op[0] == "E":
             m = op[1]
             need = len(m) + el
@@ -374,24 +419,27 @@ def clause_greedy(a):
                     if not (len(at["data"]) + need > cap):
                         return "emit %d flushed a datagram of %d bytes although the %d new bytes still fitted in %d" % (
                             j, len(at["data"]), need, cap)
-            if j in a["fits"]:
+            if j in a["fits"] and acked:
                 sizes_segment.append(need)
-        flushed = sum(len(at["data"]) for at in atts if at["kind"] and at["kind"][0] == "lines")
-        n_datagrams_segment += sum(1 for at in atts if at["kind"] and at["kind"][0] == "lines" and at["data"])
-        if op[0] == "E" and j in a["fits"]:
+        ok_lines = [at for at in atts if at["out"] == "o" and at["kind"] and at["kind"][0] == "lines"]
+        flushed = sum(len(at["data"]) for at in ok_lines)
+        n_datagrams_segment += sum(1 for at in ok_lines if at["data"])
+        if op[0] == "E" and j in a["fits"] and acked:
             pending += len(op[1]) + el
         pending -= flushed
         if pending < 0:
             return "more bytes flushed than buffered at operation %d" % j
-        if op[0] in ("F", "D"):
-            if pending != 0:
+        if op[0] in ("F", "D") and (op[0] == "D" or acked) and not any(at["out"] != "o" for at in atts):
+            if pending != 0 and not faulty_segment:
                 return "%d bytes still buffered after flush/drop %d" % (pending, j)
             want = greedy_count([s for s in sizes_segment if s])
-            if n_datagrams_segment != want:
+            if n_datagrams_segment != want and not faulty_segment:
                 return "%d datagrams used before flush/drop %d where in-order packing of sizes %s into %d needs %d" % (
                     n_datagrams_segment, j, sizes_segment, cap, want)
-            sizes_segment = []
-            n_datagrams_segment = 0
+            if pending == 0:
+                sizes_segment = []
+                n_datagrams_segment = 0
+                faulty_segment = False
     return None
 
 
@@ -481,6 +529,7 @@ def run_writer_check(prop, tier, seed, faults, design_ref):
     cases += ex
     cases += gen_boundary(rng, 20000 if thorough else 3000, faults)
     cases += gen_random(rng, 20000 if thorough else 1500, faults)
+    cases += gen_large(rng, 600 if thorough else 40, faults)
     spy = gen_spy(rng, 5000 if thorough else 500, faults)
     try:
         impl = common.run_harness("mlw", cases)
@@ -632,4 +681,6 @@ def check_C07(tier, seed):
 
 
 def check_C19(tier, seed):
-    return run_writer_check("C19", tier, seed, False, "DESIGN.md 8.C19")
+    # the local clauses (writes only when it must; flushed datagrams maximal) are theorems for every fault script
+    # (c19_must_and_maximal), so the tie runs under faults too; the datagram count is judged on fault-free segments
+    return run_writer_check("C19", tier, seed, True, "DESIGN.md 8.C19")
